@@ -47,8 +47,19 @@ def run(tier, seed):
                 continue
             pos = rng.randrange(len(r["modules"]))
             old = r["modules"][pos]
-            r["twin"] = {"by": "swap", "pos": pos, "reuse": True,
-                         "mod": dict(old, id="new", seq=gen.rotate(old["seq"], rng.randrange(1, len(old["seq"]))), feats=[], refs=[])}
+            import copy as _copy
+            mod = _copy.deepcopy(old)
+            mod["id"] = "new"
+            if rng.random() < 0.5:
+                # the replacement is the better curated file of the same part: a long reference list, a feature citing a late entry
+                mod["refs"] = list(mod.get("refs", [])) + ["curated-%d" % x for x in range(12 - len(mod.get("refs", [])))]
+                cited = [f for f in mod.get("feats", []) if f.get("cites")]
+                if cited:
+                    cited[-1]["cites"] = [rng.randint(10, 12)]
+                mod["rot"] = rng.randrange(1, len(old["seq"]))           # stored at another origin (the library's own >>)
+            else:
+                mod.update(seq=gen.rotate(old["seq"], rng.randrange(1, len(old["seq"]))), feats=[], refs=[])
+            r["twin"] = {"by": "swap", "pos": pos, "reuse": True, "mod": mod}
             recipes.append(r)
     if True:       # same-type replacements among real registry plasmids
         from . import registry_asm
